@@ -17,6 +17,18 @@ CLAIMED = {
         "Values outside the documented ranges are not modelled.",
    technique="Lean 4 proof by induction over insertion sequences + differential correspondence check",
    design="§5 C19"),
+ "C08": dict(
+   text="Lean theorems (Echse.Props.C08) about the transcribed model of echs_instant_fixup/diff/add, the ordering "
+        "predicates, the two library epoch conversions and echsd's instant_to_tstamp: agreement with the proleptic "
+        "Gregorian day count for all instants 1901-2099 and all durations (induction over the month loops, "
+        "arithmetic on the generated tables). The model is tied to the C code by a differential run on "
+        "in-domain instants (month ends, leap days, all kinds) and the calendar oracle (Python datetime) judges "
+        "the implementation's answers directly.",
+   note="Trusted: Lean kernel, the calendar spec Echse/Spec/Cal.lean, tools/gen.py for the tables, harness hx_cal.c "
+        "(instant_to_tstamp is cut textually out of echsd.c). Instants with scale/zone bits and years < 1601 are outside the model; "
+        "epoch conversions are claimed from 1970 on.",
+   technique="Lean 4 proof (induction + linear arithmetic over generated tables) + differential correspondence check",
+   design="§5 C08"),
 }
 
 checks = []
